@@ -231,6 +231,19 @@ def dispatch(eng, st, body, callee, args):
         a, b = num2(eng, st, args)
         if is_scalar(a) and is_scalar(b):
             return _o(st, eng.binop(st, CMP[meth], a, b))
+    if Tr == "PartialEq" and meth in ("eq", "ne") and len(args) == 2:
+        a, b = num2(eng, st, args)
+        if isinstance(a, Enum) and isinstance(b, Enum) and not a.fields and not b.fields:
+            r = a.variant == b.variant
+            return _o(st, r if meth == "eq" else not r)
+        if meth == "ne" and isinstance(a, (Struct, Enum, Seq)):
+            # `ne` is the provided method of core::cmp::PartialEq: !eq
+            name = eng.mir.resolve(callee.replace("::ne", "::eq"))
+            if name is not None:
+                from engine import Outcome
+                return [Outcome(o.st, o.kind, eng.unop(o.st, "Not", o.val) if o.kind == "ret" else o.val) for o in eng.exec_body(st, eng.mir.bodies[name], args)]
+            r = value_eq(eng, st, a, b)
+            return _o(st, eng.unop(st, "Not", r))
     if Tr in ("Add", "Sub", "Mul", "Div") and meth in ARITH and len(args) == 2:
         a, b = num2(eng, st, args)
         if is_scalar(a) and is_scalar(b):
